@@ -15,6 +15,10 @@ func (c *puFn) bind(n ast.Node, op string) (string, error) {
 		return "", c.errf(n, "internal: failing operation in a function classified as total")
 	}
 	t := c.fresh()
+	if c.stateful() {
+		c.pre = append(c.pre, "Go.bindS "+c.stateText()+" ("+op+") fun "+t+" =>")
+		return t, nil
+	}
 	c.pre = append(c.pre, op+" >>= fun "+t+" =>")
 	return t, nil
 }
@@ -97,6 +101,9 @@ func (c *puFn) expr(e ast.Expr) (string, error) {
 		if _, isPtr := t.Underlying().(*types.Pointer); isPtr {
 			return "", c.errf(e, "index through a pointer")
 		}
+		if _, isArr := t.Underlying().(*types.Array); isArr {
+			return "", c.errf(e, "index into an array")
+		}
 		base, err := c.expr(x.X)
 		if err != nil {
 			return "", err
@@ -107,7 +114,7 @@ func (c *puFn) expr(e ast.Expr) (string, error) {
 		}
 		return c.bind(e, "Go.idx "+base+" "+i)
 	case *ast.SliceExpr:
-		if x.High != nil || x.Max != nil || x.Slice3 {
+		if x.Max != nil || x.Slice3 || (x.High != nil && !c.forcedHigh[x]) {
 			return "", c.errf(e, "slice expression with a high bound (its limit is cap(x), which the carrier does not have)")
 		}
 		t, err := c.typeOf(x.X)
@@ -117,9 +124,30 @@ func (c *puFn) expr(e ast.Expr) (string, error) {
 		if k := c.kindOf(t); k != puBytes && k != puList {
 			return "", c.errf(e, "slice of %s", t)
 		}
+		if _, isArr := t.Underlying().(*types.Array); isArr {
+			return "", c.errf(e, "slice of an array")
+		}
 		base, err := c.expr(x.X)
 		if err != nil {
 			return "", err
+		}
+		if c.grp.g.rich && x.Low == nil && x.High == nil {
+			if _, isSlice := t.Underlying().(*types.Slice); isSlice {
+				return base, nil // x[:] of a slice is x
+			}
+		}
+		if x.High != nil {
+			lo := "(0 : Int)"
+			if x.Low != nil {
+				if lo, err = c.toInt(x.Low); err != nil {
+					return "", err
+				}
+			}
+			hi, err := c.toInt(x.High)
+			if err != nil {
+				return "", err
+			}
+			return c.bind(e, "Go.slice "+base+" "+lo+" "+hi)
 		}
 		lo := "(0 : Int)"
 		if x.Low != nil {
@@ -152,11 +180,23 @@ func (c *puFn) ident(x *ast.Ident) (string, error) {
 		if c.kindOf(v.Type()) == puBad {
 			return "", c.errf(x, "variable %s of type %s", x.Name, v.Type())
 		}
+		if c.fx.poison[v] {
+			return "", c.errf(x, "%s may have been overwritten in place through another name", x.Name)
+		}
+		if c.kindOf(v.Type()) == puPtr {
+			return c.varText(v), nil
+		}
+		if c.nilable[v] && !c.bound[v] {
+			return "", c.errf(x, "%s is read before it is tested against nil", x.Name)
+		}
 		return c.name(v), nil
 	case *types.Nil:
 		t, err := c.typeOf(x)
 		if err != nil {
 			return "", err
+		}
+		if c.kindOf(t) == puPtr {
+			return "none", nil
 		}
 		if k := c.kindOf(t); k == puBytes || k == puList {
 			return c.zero(t)
@@ -178,6 +218,43 @@ func (c *puFn) selector(x *ast.SelectorExpr) (string, error) {
 	if err != nil {
 		return "", err
 	}
+	if c.grp.g.rich {
+		if n := puNamedStruct(bt); n != nil {
+			fs, _, err := c.grp.structFields(n)
+			if err != nil {
+				return "", c.errf(x, "%v", err)
+			}
+			has := false
+			for _, f := range fs {
+				if f.Name() == x.Sel.Name {
+					has = true
+				}
+			}
+			if !has {
+				return "", c.errf(x, "field %s has no carrier (it is part of rest_)", x.Sel.Name)
+			}
+		}
+	}
+	if c.kindOf(bt) == puPtr {
+		if _, err := c.leanType(bt); err != nil {
+			return "", c.errf(x, "%v", err)
+		}
+		var base string
+		if v := c.identVar(x.X); v != nil {
+			if base, err = c.derefVar(x, v); err != nil {
+				return "", err
+			}
+		} else {
+			inner, err := c.expr(x.X)
+			if err != nil {
+				return "", err
+			}
+			if base, err = c.bind(x, "Go.deref "+inner); err != nil {
+				return "", err
+			}
+		}
+		return base + "." + puLeanIdent(x.Sel.Name), nil
+	}
 	if c.kindOf(bt) != puStruct {
 		return "", c.errf(x, "field of %s", bt)
 	}
@@ -195,6 +272,13 @@ func (c *puFn) selector(x *ast.SelectorExpr) (string, error) {
 }
 
 func (c *puFn) unary(x *ast.UnaryExpr) (string, error) {
+	if lit, ok := x.X.(*ast.CompositeLit); ok && x.Op == token.AND && c.grp.g.rich {
+		s, err := c.composite(lit)
+		if err != nil {
+			return "", err
+		}
+		return "(some " + s + ")", nil
+	}
 	t, err := c.typeOf(x)
 	if err != nil {
 		return "", err
@@ -525,6 +609,9 @@ func (c *puFn) call(x *ast.CallExpr) (string, error) {
 				if k := c.kindOf(t); k != puBytes && k != puList {
 					return "", c.errf(x, "len of %s", t)
 				}
+				if _, isArr := t.Underlying().(*types.Array); isArr {
+					return "", c.errf(x, "len of an array")
+				}
 				a, err := c.expr(x.Args[0])
 				if err != nil {
 					return "", err
@@ -552,15 +639,89 @@ func (c *puFn) call(x *ast.CallExpr) (string, error) {
 				}
 				return c.bind(x, "Go.make "+z+" "+n)
 			}
+			if id.Name == "new" && c.grp.g.rich && len(x.Args) == 1 {
+				t, err := c.typeOf(x)
+				if err != nil {
+					return "", err
+				}
+				if c.kindOf(t) != puPtr {
+					return "", c.errf(x, "new of %s", t)
+				}
+				z, err := c.structLit(t, nil)
+				if err != nil {
+					return "", c.errf(x, "%v", err)
+				}
+				return "(some " + z + ")", nil
+			}
 			return "", c.errf(x, "builtin %s in this position", id.Name)
 		}
 	}
 	if f, rx := c.callee(x); f != nil {
 		if f.mutRecv {
+			if c.grp.g.rich && f.t.extern {
+				return c.hoistMut(x, f, rx)
+			}
 			return "", c.errf(x, "call of a receiver-mutating method inside an expression")
+		}
+		if c.grp.g.rich && !f.t.extern {
+			if f.stateful() {
+				return "", c.errf(x, "call of a function that changes objects behind its pointer parameters inside an expression")
+			}
+			lines, exprs, _, err := c.richCall(x, f)
+			if err != nil {
+				return "", err
+			}
+			if len(exprs) != 1 {
+				return "", c.errf(x, "multi-valued call inside an expression")
+			}
+			c.pre = append(lines, c.pre...)
+			return exprs[0], nil
 		}
 		s, _, err := c.calleeApp(x, f, rx)
 		return s, err
+	}
+	if l := c.libOf(x); l != nil {
+		if !l.total {
+			return "", c.errf(x, "library call %s inside an expression", l.key)
+		}
+		fo := c.libFuncObj(x)
+		if fo == nil {
+			return "", c.errf(x, "library call %s: no type information", l.key)
+		}
+		a, err := c.args(x)
+		if err != nil {
+			return "", err
+		}
+		// the operands must have the carriers the field is typed with
+		want := c.grp.g.libTotalSig[l.field]
+		for _, arg := range x.Args {
+			t, err := c.typeOf(arg)
+			if err != nil {
+				return "", err
+			}
+			lt, err := c.leanType(t)
+			if err != nil || lt != want.arg {
+				return "", c.errf(arg, "operand of %s of type %s", l.key, t)
+			}
+		}
+		if len(a) != want.n {
+			return "", c.errf(x, "%s with %d operands", l.key, len(a))
+		}
+		parts := make([]string, want.n)
+		for i := range parts {
+			parts[i] = want.arg
+		}
+		c.grp.libUsed[l.field] = strings.Join(append(parts, want.res), " → ")
+		return "(L." + l.field + " " + strings.Join(a, " ") + ")", nil
+	}
+	if c.grp.g.rich && c.stdCall(x) == "fmt.Errorf" {
+		// a non-nil error whatever the operands; they are evaluated for nothing else
+		for _, a := range x.Args {
+			if !puHarmless(a) {
+				return "", c.errf(a, "operand of fmt.Errorf that could fail or have an effect")
+			}
+		}
+		return "true", nil
 	}
 	switch c.stdCall(x) {
 	case "fmt.Sprintf":
